@@ -307,10 +307,88 @@ fn option_grid(tier: Tier) -> Vec<TrkCfg> {
     pick
 }
 
+/// Contest family: a track with three stored looks (0, 0 or .5, 1 on a line in feature space) and a bystander track
+/// with ONE stored look off that line; then two detections with looks x and y arrive together. Over the grid of (z, x, y)
+/// the two detections claim the first track with different numbers of votes, and a pair that falls short of
+/// the quorum (the bystander) often holds the largest distance of the frame - the weight of every claim is
+/// measured from that largest distance.
+fn run_contest_family(rep: &Report, tier: Tier) -> (u64, u64, u64, u64) {
+    let look = |t: f32, u: f32| -> Vec<f32> { vec![t, u, 0.5, 0.0, 0.0, 0.0, 0.0, 0.0] };
+    let step = tier.pick(0.1f32, 0.05f32);
+    let xs: Vec<f32> = (0..).map(|i| -1.0 + 0.007 + step * i as f32).take_while(|x| *x < 2.45).collect();
+    // bystander looks: off the line (0.5, u), so its distance to a detection is decoupled from the detection's
+    // distances to the first track; second stored look of the first track: 0 (a repeated look) or 0.5
+    let zs: Vec<(f32, f32)> = (0..7).flat_map(|i| [(0.0f32, 0.9 + 0.013 + 0.1 * i as f32), (0.5f32, 0.9 + 0.013 + 0.1 * i as f32)]).collect();
+    let mut tot = (0u64, 0u64, 0u64, 0u64);
+    for min_votes in [2usize, 1] {
+        for pos in [Pos::Iou(0.3), Pos::Maha] {
+            if tier == Tier::Quick && pos == Pos::Maha {
+                continue;
+            }
+            let mut cfg = TrkCfg::new(Kind::VisualSort);
+            cfg.pos = pos;
+            cfg.max_idle = 5;
+            cfg.min_conf = 0.1;
+            cfg.vis = VisOpts { metric: Vis::Euclid(1.2), min_votes, min_track_len: 1, max_obs: 3, q_use: 0.0, q_collect: 0.0, min_area: 0.0, own_use: 0.0, own_collect: 0.0 };
+            let n = zs.len() * xs.len() * xs.len();
+            let chunk = 64usize;
+            let nchunks = (n + chunk - 1) / chunk;
+            let (xs2, zs2, cfg2) = (xs.clone(), zs.clone(), cfg.clone());
+            let outs = run_jobs(nchunks, move |ci| {
+                let mut viol: Vec<(((f32, f32), f32, f32), usize, String, String)> = vec![];
+                let mut st = (0u64, 0u64, 0u64, 0u64);
+                for code in ci * chunk..((ci + 1) * chunk).min(n) {
+                    let (z, x, y) = (zs2[code % zs2.len()], xs2[(code / zs2.len()) % xs2.len()], xs2[code / zs2.len() / xs2.len()]);
+                    let frames: Vec<Vec<Det>> = vec![
+                        vec![p().feat(&look(0.0, 0.0), 0.9), q().feat(&look(0.5, z.1), 0.9)],
+                        vec![p().shift(0.5, 0.0).feat(&look(z.0, 0.0), 0.9)],
+                        vec![p().feat(&look(1.0, 0.0), 0.9)],
+                        vec![p1().feat(&look(x, 0.0), 0.9), p().shift(-1.0, 0.5).feat(&look(y, 0.0), 0.9)],
+                    ];
+                    let mut trk = Guarded::new(AnyTrk::new(&cfg2));
+                    for (k, dets) in frames.iter().enumerate() {
+                        let pre = trk.all_stored(false, cfg2.shards);
+                        let recs = trk.predict(0, dets);
+                        st.0 += 1;
+                        match judge_call(&cfg2, 0, k + 1, dets, &recs, &pre) {
+                            Judgement::Ok { visual_attachments, contests, .. } => {
+                                st.2 += visual_attachments;
+                                st.3 += contests;
+                            }
+                            Judgement::Undecided => st.1 += 1,
+                            Judgement::Bad(key, what) => {
+                                viol.push(((z, x, y), k, key, what));
+                                break;
+                            }
+                        }
+                    }
+                }
+                (viol, st)
+            });
+            for o in outs {
+                match o {
+                    Ok((viol, st)) => {
+                        tot.0 += st.0;
+                        tot.1 += st.1;
+                        tot.2 += st.2;
+                        tot.3 += st.3;
+                        for ((z, x, y), k, key, what) in viol {
+                            rep.violation(Violation { key, what, replay: json!({"family":"contest","config":cfg.json(),"second_look_and_bystander_look":[z.0, z.1],"looks_of_the_two_detections":[x,y],"failing_call":k}) });
+                        }
+                    }
+                    Err(e) => rep.violation(Violation { key: "VisualSort/panic-or-deadlock".into(), what: e.chars().take(300).collect(), replay: json!({"family":"contest","config":cfg.json()}) }),
+                }
+            }
+        }
+    }
+    rep.extra("contest_family", json!({"calls":tot.0,"undecided_by_margin":tot.1,"visual_attachments":tot.2,"contests":tot.3,"grid":{"bystander_looks":zs.len(),"detection_looks":xs.len()}}));
+    tot
+}
+
 pub fn run(tier: Tier) -> Report {
     let rep = Report::new("C12", tier);
     let ls = Arc::new(lists());
-    rep.set_rule("every call history of depth <= D (quick 4 for VisualSort, thorough 4 on the full grid; VisualSort; BatchVisualSort one level shallower on a sub-grid) over 13 detection lists (same look, look-alike, half-way look, swapped appearances, no feature, low quality, small box, mutual occlusion, far-away look-alike, empty) x option grid {Euclidean(.5) / cosine(.9); plus cosine(.2) configurations} x {IoU, Mahalanobis} x min votes {1,2} x minimal track length {1,2} x max observations {2,3} x use/collect quality {(0,.6),(.5,.3)} x minimal area {0,150} x own-area share use/collect {(0,0),(.5,.2)} plus each threshold switched on alone {(.5,0),(0,.3)} (quick: covering subset in which every option takes every value; thorough: all 512); before every call the galleries are read from the store and usable / collected / votes / weights / contests / positional fallback re-derived independently. Non-trivial = call with at least one appearance claim.");
+    rep.set_rule("every call history of depth <= D (quick 4 for VisualSort, thorough 4 on the full grid; VisualSort; BatchVisualSort one level shallower on a sub-grid) over 13 detection lists (same look, look-alike, half-way look, swapped appearances, no feature, low quality, small box, mutual occlusion, far-away look-alike, empty) x option grid {Euclidean(.5) / cosine(.9); plus cosine(.2) configurations} x {IoU, Mahalanobis} x min votes {1,2} x minimal track length {1,2} x max observations {2,3} x use/collect quality {(0,.6),(.5,.3)} x minimal area {0,150} x own-area share use/collect {(0,0),(.5,.2)} plus each threshold switched on alone {(.5,0),(0,.3)} (quick: covering subset in which every option takes every value; thorough: all 512); before every call the galleries are read from the store and usable / collected / votes / weights / contests / positional fallback re-derived independently. Plus a contest family (Euclidean(1.2), min votes 2 and 1): a track with three stored looks, a bystander with one, and two detections arriving together whose looks run over a 35 x 35 grid (thorough 69 x 69) x 14 (second look, bystander look) pairs - competing claims with different vote counts while a pair short of the quorum holds the frame's largest distance. Non-trivial = call with at least one appearance claim.");
     rep.assume("decisions within 1e-3 of a threshold or vote weights within 1e-4 of each other are accepted either way (counted as undecided)");
     let grid = option_grid(tier);
     rep.extra("option_points", json!(grid.len()));
@@ -385,6 +463,12 @@ pub fn run(tier: Tier) -> Report {
             }
         }
     }
+    let cf = run_contest_family(&rep, tier);
+    calls += cf.0;
+    undecided += cf.1;
+    vis_att += cf.2;
+    contests += cf.3;
+    histories += cf.0 / 4;
     rep.add(calls, calls, histories, 0);
     rep.distinct_count(vis_att + contests);
     rep.extra("calls_judged", json!(calls));
